@@ -9,7 +9,7 @@ From Coq Require Import List Bool NArith ZArith.
 From Coq Require Import Init.Byte.
 From Bec2 Require Import Base.Result Base.Bytes Gen.AesTables Model.Cbc Model.AesSpec Model.Aes Model.AesModes
   Proofs.CbcProofs Proofs.AesTablesProofs Proofs.AesSpecVectors Proofs.AesSpecProofs Proofs.AesProofs
-  Proofs.AesModesProofs.
+  Proofs.AesKeyProofs Proofs.AesModesProofs Proofs.AesStdProofs.
 Import ListNotations.
 Open Scope N_scope.
 
@@ -76,23 +76,21 @@ Theorem C16_spec_inverse : forall ks s,
 Proof. intros ks s. split; [apply InvCipher_Cipher | apply EqInvCipher_rk_eq]. Qed.
 Print Assumptions C16_spec_inverse.
 
-(* AES(key).encrypt/decrypt of the model = Cipher / InvCipher of FIPS-197 with the round
-   keys that the model's key schedule produced, for all keys of 16/24/32 bytes and all blocks.
-   Partial: that these round keys are those of FIPS-197 5.2 KeyExpansion is not proved here. *)
-Theorem C16_block_eq_spec_partial : forall k b, key_ok k = true -> length b = 16%nat ->
-  let rks := map st_of_w4 (expand_Ke k) in
-  aes_encrypt_block k b = Ok (bytes_of_state (Cipher_rk rks (state_of_bytes b))) /\
-  aes_decrypt_block k b = Ok (bytes_of_state (InvCipher_rk rks (state_of_bytes b))).
-Proof.
-  intros k b Hk Hb rks. rewrite <- aes_key_ok_eq in Hk.
-  pose proof (expand_Ke_rows k Hk) as Hr.
-  unfold aes_encrypt_block, aes_decrypt_block. rewrite Hk, (proj2 (blen16 b) Hb). cbn [negb].
-  split; f_equal.
-  - apply encrypt_rk_spec; [apply Forall2_wst_map | exact Hr | exact Hb].
-  - unfold expand_Kd. rewrite <- EqInvCipher_rk_eq.
-    apply decrypt_rk_spec; [apply Forall2_wst_map | exact Hr | exact Hb].
-Qed.
-Print Assumptions C16_block_eq_spec_partial.
+(* AES(key).encrypt / decrypt of the model = Cipher / InvCipher of FIPS-197 (key schedule of
+   5.2 included), for all keys of 16/24/32 bytes and all 16-byte blocks; the equivalent inverse
+   cipher that pyaes implements (Kd through U1..U4) is the inverse cipher *)
+Theorem C16_block_eq_spec : forall k b, key_ok k = true -> length b = 16%nat ->
+  aes_encrypt_block k b = Ok (Cipher k b) /\
+  aes_decrypt_block k b = Ok (InvCipher k b) /\
+  InvCipher k b = EqInvCipher k b.
+Proof. exact aes_block_eq_spec. Qed.
+Print Assumptions C16_block_eq_spec.
+
+(* the key schedule alone: the rows of Ke are the round keys of KeyExpansion *)
+Theorem C16_key_schedule : forall k, key_ok k = true ->
+  Forall2 wst (expand_Ke k) (round_keys (KeyExpansion k)).
+Proof. exact key_schedule_spec. Qed.
+Print Assumptions C16_key_schedule.
 
 (* decryption inverts encryption for every key and block; 16-byte blocks stay 16 bytes *)
 Theorem C16_inverse : forall k b,
@@ -107,15 +105,54 @@ Print Assumptions C16_block_functions.
 
 (* ---- 2. feeders: every split into chunks gives what the whole input gives ---------------- *)
 
-Theorem C16_feeder_split_block : forall (E D : bytes -> bytes -> bytes) m d pad k iv ctr chunks,
-  m = ECB \/ m = CBC ->
+(* Encrypter / Decrypter over a fresh mode object, for every mode (ECB, CBC, CFB with any
+   segment size, OFB, CTR), direction, padding option, key, iv and initial counter: the
+   concatenation of what feed(chunk) returns for the chunks in order, followed by feed(), equals
+   what the same feeder returns for the whole input in one chunk (errors included).
+   Stated for every block function that maps 16-byte blocks to 16-byte blocks. *)
+Theorem C16_feeder_split : forall (E D : bytes -> bytes -> bytes),
+  (forall k b, length b = 16%nat -> length (E k b) = 16%nat) ->
+  forall m d pad k iv ctr chunks,
   stream_crypt E D m d pad k iv ctr chunks = stream_crypt E D m d pad k iv ctr [concat chunks].
+Proof. intros E D HE m d pad k iv ctr chunks. apply stream_crypt_split, HE. Qed.
+Print Assumptions C16_feeder_split.
+
+Theorem C16_feeder_split_aes : forall m d pad k iv ctr chunks,
+  stream_crypt aes_E aes_D m d pad k iv ctr chunks = stream_crypt aes_E aes_D m d pad k iv ctr [concat chunks].
+Proof. intros. apply stream_crypt_split. exact aes_E_len. Qed.
+Print Assumptions C16_feeder_split_aes.
+
+(* OFB and CTR: the feeders return the SP 800-38A encryption (= decryption) of the whole
+   input, however it is cut into chunks, for padding 'default' and 'none', every usable key,
+   iv (None = 16 zero bytes) and initial counter value *)
+Theorem C16_feeder_ofb_ctr_std : forall d pad k iv v chunks,
+  pad <> PadOther -> key_ok k = true ->
+  (length (the_iv iv) = 16%nat ->
+   stream_crypt aes_E aes_D OFB d pad k iv 0 chunks = Ok (sp_ofb_crypt (aes_E k) (the_iv iv) (concat chunks))) /\
+  stream_crypt aes_E aes_D CTR d pad k iv v chunks = Ok (sp_ctr_crypt (aes_E k) v (concat chunks)).
 Proof.
-  intros E D m d pad k iv ctr chunks Hm. unfold stream_crypt.
-  destruct (mode_init m k iv ctr) as [st|e]; [|reflexivity]. cbn [bind].
-  apply block_feed_all_split, Hm.
+  intros d pad k iv v chunks Hp Hk. split.
+  - intro Hiv. apply ofb_feeder_std; [exact aes_E_len | exact Hp | exact Hk | exact Hiv].
+  - apply ctr_feeder_std; [exact aes_E_len | exact Hp | exact Hk].
 Qed.
-Print Assumptions C16_feeder_split_block.
+Print Assumptions C16_feeder_ofb_ctr_std.
+
+(* Counter(v) holds the low 128 bits of v big-endian; increment() is +1 modulo 2^128
+   (the standard incrementing function of SP 800-38A B.1 on all 128 bits) *)
+Theorem C16_ctr_counter : forall v,
+  counter_init v = ctr_block v /\ counter_increment (ctr_block v) = ctr_block (v + 1) /\
+  forall c, length (counter_increment c) = length c /\
+            from_be (counter_increment c) = (from_be c + 1) mod 256 ^ blen c.
+Proof.
+  intro v. destruct (counter_block_spec v) as [H1 H2]. split; [exact H1|]. split; [exact H2|].
+  exact counter_increment_spec.
+Qed.
+Print Assumptions C16_ctr_counter.
+
+(* bec2format.crypto.pad (pad_length generated from the source) is the zero padding of Model/Cbc.v *)
+Theorem C16_pad : forall d, crypto_pad d = zero_pad d.
+Proof. exact crypto_pad_eq. Qed.
+Print Assumptions C16_pad.
 
 (* ---- 3. the adapter ------------------------------------------------------------------------- *)
 
